@@ -111,6 +111,8 @@ var deepPats = []string{
 	// section) behind a leading set: what an aborted call leaves in the mode flags meets the next call's
 	// first-character search
 	`[a-c]+(?<=(a|b|c)*)`, `\w+(?<=(?:[a-z]\d?)+)`, `\d+(?<=(?:\d|\d\d)+)x?`, `\w(?i:(?:a|B)*)c`, `[ab]+(?<!(?:c|b)*d)`,
+	// ... and where the call is abandoned while backtracking into a single-character lazy loop of the lookbehind
+	`\w+(?<=(?:b\w*?)+)`, `\w+(?<=^(?:b\w*?|c)+)`, `[a-c]+(?<=(?:c[ab]*?)+)`, `\w+(?<=(?:b\w*?)+)!`,
 }
 
 type c13ref struct {
